@@ -32,10 +32,10 @@ Definition delta_of (o : op) (n : Z) : option Z :=
 Definition claims (o : op) (n : Z) : bool :=
   match o with OClaim m | ODelete m => m =? n | _ => false end.
 (* the snapshot a call gives to n: [Some None] = the accumulator's current value, [Some (Some ia)] = the
-   caller-supplied interval accumulation *)
+   caller-supplied interval accumulation (after a deletion there is no record: the reference point is immaterial) *)
 Definition resnaps (o : op) (n : Z) : option (option coins) :=
   match o with
-  | ONew m _ | OAdd m _ | ORemove m _ | OUpdate m _ | OClaim m => if m =? n then Some None else None
+  | ONew m _ | OAdd m _ | ORemove m _ | OUpdate m _ | OClaim m | ODelete m => if m =? n then Some None else None
   | ONewIA m _ ia | OAddIA m _ ia | ORemoveIA m _ ia | OUpdateIA m _ ia | OSetIA m ia =>
       if m =? n then Some (Some ia) else None
   | _ => None
@@ -200,7 +200,7 @@ Definition invalid (tr : trace) (o : op) : Prop :=
   | OGrow _ | ONew _ _ | ONewIA _ _ _ => False
   | OAdd n s | OAddIA n s _ => live tr n = false \/ s <= 0
   | ORemove n s | ORemoveIA n s _ => live tr n = false \/ s <= 0 \/ shares tr n < s
-  | OUpdate n s | OUpdateIA n s _ => live tr n = false \/ s = 0 \/ shares tr n < - s
+  | OUpdate n s | OUpdateIA n s _ => live tr n = false \/ s = 0 \/ (s < 0 /\ shares tr n < - s)
   | OSetIA n _ | OClaim n | ODelete n => live tr n = false
   | OAddUnclaimed n c => live tr n = false \/ ~ nonneg c
   end.
